@@ -31,7 +31,9 @@ func mdiSame(ss ...string) []mdiSpell {
 	return out
 }
 
-// every atom has three spellings; all visible forms are distinct and none is a substring of a word
+// every atom has three spellings (the escape / entity atoms a fourth one: a spelling whose DECODED text looks like
+// another escape or character reference - "&amp;#169;" is the six characters &#169; - so decoding twice, or in another
+// order than CommonMark's single pass, shows); all visible forms are distinct and none is a substring of a word
 var mdiAtoms = map[string][]mdiSpell{
 	"w1": mdiSame("alpha", "Lorem", "kiwi7"),
 	"w2": mdiSame("bravo", "ipsum", "mango8"),
@@ -41,10 +43,10 @@ var mdiAtoms = map[string][]mdiSpell{
 	"u2": mdiSame("ñandú", "日本語", "ßeta"),
 	"x1": mdiSame("R&D", "1<2", "\"q\""),
 	"x2": mdiSame("it's", "2>1", "p&q"),
-	"e1": {{`\*`, "*"}, {`\_`, "_"}, {`\[`, "["}},
-	"e2": {{`\#`, "#"}, {"\\`", "`"}, {`\\`, `\`}},
-	"n1": {{"&copy;", "©"}, {"&amp;", "&"}, {"&#8364;", "€"}},
-	"n2": {{"&lt;", "<"}, {"&quot;", "\""}, {"&#x3A9;", "Ω"}},
+	"e1": {{`\*`, "*"}, {`\_`, "_"}, {`\[`, "["}, {`\&#35;`, "&#35;"}},
+	"e2": {{`\#`, "#"}, {"\\`", "`"}, {`\\`, `\`}, {`\&gt;`, "&gt;"}},
+	"n1": {{"&copy;", "©"}, {"&amp;", "&"}, {"&#8364;", "€"}, {"&amp;#169;", "&#169;"}},
+	"n2": {{"&lt;", "<"}, {"&quot;", "\""}, {"&#x3A9;", "Ω"}, {"&#92;*", `\*`}},
 	"a1": {{"<http://ex.am/p1>", "http://ex.am/p1"}, {"<https://w3.io/a?b=1>", "https://w3.io/a?b=1"}, {"<mailto:me@ex.am>", "mailto:me@ex.am"}},
 	"a2": mdiSame("http://ex.am/p2", "www.ex.am", "https://w3.io/q"),
 	"m1": mdiSame("**", "<i>", "&lt;"),
